@@ -1021,9 +1021,16 @@ func randomCase(rng *hx.Rng, proto string, v3 bool, maxLen int) *Case {
 }
 
 func main() {
+	// the logger provider must be in place before anything is logged (conn.go: completion signal)
+	arieslog.Initialize(logProvider{})
+	arieslog.SetLevel("", spilog.CRITICAL)
+	arieslog.SetLevel(modDidex, spilog.DEBUG)
+	arieslog.SetLevel(modLegacy, spilog.DEBUG)
+
 	a := hx.ParseArgs()
 	initNumberings()
-	arieslog.SetLevel("", spilog.CRITICAL)
+	initConnTabs()
+	initConnTypes()
 
 	tr := hx.NewTrace(a.Out)
 	defer tr.Close()
@@ -1047,7 +1054,11 @@ func main() {
 		}
 
 		if rp.Case != nil {
-			runCase(tr, "replay", rp.Case, true)
+			if rp.Case.Proto == "didex" || rp.Case.Proto == "legacy" {
+				runConnCase(tr, "replay", rp.Case, true)
+			} else {
+				runCase(tr, "replay", rp.Case, true)
+			}
 		}
 
 		return
@@ -1056,7 +1067,7 @@ func main() {
 	protos := []string{"ic", "pp", "intro"}
 
 	// the harness' copy of the published graphs against Spec.v
-	for _, p := range protos {
+	for _, p := range []string{"ic", "pp", "intro", "didex", "legacy"} {
 		tr.Put(&hx.Record{Kind: "spec", Coq: coqSpecCase(p), Case: map[string]string{"spec": p}, Class: "spec:" + p, Trivial: true})
 	}
 
@@ -1071,11 +1082,16 @@ func main() {
 
 			var c Case
 			must(json.Unmarshal(b, &c))
-			runCase(tr, "corpus", &c, true)
+
+			if c.Proto == "didex" || c.Proto == "legacy" {
+				runConnCase(tr, "corpus", &c, true)
+			} else {
+				runCase(tr, "corpus", &c, true)
+			}
 		}
 	}
 
-	depth, nRandom, maxLen, budget, twoUntil, faultDepth := 4, 600, 16, 1800, 2, 3
+	depth, nRandom, maxLen, budget, twoUntil, faultDepth := 4, 500, 16, 1400, 2, 3
 	if a.Tier == "thorough" {
 		depth, nRandom, maxLen, budget, twoUntil, faultDepth = 4, 4000, 24, 8000, 3, 4
 	}
@@ -1094,6 +1110,21 @@ func main() {
 			for i := 0; i < nRandom; i++ {
 				runCase(tr, "random", randomCase(r.Fork(uint64(i)), p, v3, maxLen), true)
 			}
+		}
+	}
+
+	// DID Exchange and legacy Connection: two real frameworks per case, the harness schedules messages and decisions
+	connDepth, connMax, connRandom := 9, 320, 120
+	if a.Tier == "thorough" {
+		connDepth, connMax, connRandom = 12, 1500, 400
+	}
+
+	for pi, p := range []string{"didex", "legacy"} {
+		exploreConn(tr, p, connDepth, connMax)
+
+		r := rng.Fork(uint64(100 + pi))
+		for i := 0; i < connRandom; i++ {
+			randomConnCase(tr, r.Fork(uint64(i)), p, 12)
 		}
 	}
 
